@@ -110,6 +110,8 @@ def run(ctx):
         feats, names = features(P)
         if io.has_repeated_arith_operand(dom, prob):
             feats = set(feats) | {"repeated-arith-operand"}
+        if io.pddl_lib_drops_duplicate_effect(dom):
+            feats = set(feats) | {"duplicate-effect-in-and"}
         ninsts = 0
         for a in P.actions:
             k = 1
